@@ -13,7 +13,7 @@ e == Ev(t)[l]
 T == Log[t]
 Cmp == T.cmp
 Hdr == T.hdr
-Cfg == T.cfg           \* [pad, key, pt, max]; key = <<>> means no TSIG
+Cfg == T.cfg           \* [pad, key, terr, other, pt, max]; key = <<>> means no TSIG; terr/other = TSIG error and other data
 Adv == l' = l + 1 /\ t' = t
 AlgName == <<<<104, 109, 97, 99, 45, 115, 104, 97, 50, 53, 54>>>>       \* hmac-sha256.
 
@@ -22,7 +22,7 @@ Item(i) == T.msg[i]
 Qs == SelectSeq(T.msg, LAMBDA x : x.op = "q")
 SecSets(s) == LET xs == SelectSeq(T.msg, LAMBDA x : x.op = "rr" /\ x.sec = s)
               IN [i \in 1..Len(xs) |-> MkRRset(xs[i], Cmp, ClsIN)]
-TsigRs(t48, mac) == MkTsig(Cfg.key, AlgName, t48, 300, mac, Hdr.id, 0, <<>>)
+TsigRs(t48, mac) == MkTsig(Cfg.key, AlgName, t48, 300, mac, Hdr.id, Cfg.terr, Cfg.other)
 \* the abstract message being rendered (TSIG time and MAC are observed values)
 Msg(t48, mac) ==
     [id |-> Hdr.id, flags |-> HdrFlags(Hdr),
@@ -76,6 +76,8 @@ PosAfter(m, nq, k) == Pos(FAddAll(FInit(m.id, m.flags, 65535),
                                   SubSeq(MsgItems(m), 1, Len(m.q)) \o SubSeq(AllSets(m), 1, k)))
 TDone ==
     /\ e.op = "done" /\ UNCHANGED st
+    \* rendering never changes the message object (a later rendering of the same object starts from the same flags)
+    /\ Check(t, l, "MessageFlagsUnchanged", e.mflags[1] = e.mflags[2] /\ e.mflags[1] = HdrFlags(Hdr))
     /\ LET m == Msg(e.t48, e.mac)
            nsets == Len(AllSets(m))
            full == PosAfter(m, Len(m.q), nsets) IN
